@@ -97,7 +97,7 @@ def run(ctx):
     known = {}
     stats = {"probe_roundtrip_ok": 0, "probe_roundtrip_known_bad": 0, "probe_emit_exact": 0, "probe_style_agree": 0,
              "probe_unmodelled_layout": 0, "doc_ok": 0, "doc_known_bad": 0, "json_same": 0, "json_known_tab": 0,
-             "json_rejected_by_json_decoder": 0, "fixed_known_cases": 0}
+             "json_rejected_by_json_decoder": 0, "fixed_known_cases": 0, "oracle_hypotheses_checked": 0}
 
     def violation(kind, c, i, m, what):
         nonlocal mism
@@ -118,6 +118,16 @@ def run(ctx):
                 violation("model-driver-failed", c, i, m, "the model driver could not process the case")
                 continue
             s, text = unhex(cw[2]), unhex(cw[3])
+            # hypotheses of the theorems about the oracles, validated on every case
+            flags = kv(c).get("f", "00000")
+            nps = kv(c).get("np", "-")
+            npset = set() if nps == "-" else set(nps.split(","))
+            if (flags[1] == "1" and flags[2] != "1") or (b"\n" in s and "a" not in npset) or (b"\r" in s and "d" not in npset):
+                violation("oracle-hypothesis-violated", c, i, m,
+                          "token.ToNumber succeeded but token.isNumber is false, or unicode.IsPrint holds for a line break: "
+                          "a hypothesis of C11_style_choice_safe_when / C11_double_roundtrip does not hold for the implementation's libraries")
+                continue
+            stats["oracle_hypotheses_checked"] += 1
             has_break = (b"\n" in s) or (b"\r" in s)
             unmod = mw["kind"] == "SC" and has_break
             styles[mw["kind"]] = styles.get(mw["kind"], 0) + 1
